@@ -2,10 +2,12 @@ module burrowverif/harness
 
 go 1.24
 
-require github.com/linkedin/Burrow v0.0.0
+require (
+	github.com/IBM/sarama v1.45.0
+	github.com/linkedin/Burrow v0.0.0
+)
 
 require (
-	github.com/IBM/sarama v1.45.0 // indirect
 	github.com/OneOfOne/xxhash v1.2.8 // indirect
 	github.com/beorn7/perks v1.0.1 // indirect
 	github.com/cespare/xxhash/v2 v2.3.0 // indirect
